@@ -50,6 +50,10 @@ structure Config where
   shortcutIdx : Nat
   /-- `Options.__init__` skips options of weight 0 (`if prob == 0: continue`) -/
   dropZero : Bool
+  /-- the shuffle scheduler pops the items it has run from a *copy* of the dict operand (`subs = dict(subs[0])`);
+  `false`: it pops them from the caller's own dict (`subs = subs[0]`), so that a dict held in a variable is empty after
+  `do shuffle d` -/
+  copyOperand : Bool
   deriving DecidableEq, Repr
 
 /-- the values the theorems need (re-decided on the regenerated data on every run) -/
@@ -183,7 +187,7 @@ inductive DrawSpec where
   | weighted (opts : List (Int × Rat))
   /-- `Uniform(v, …)` = `Options((v, …))` -/
   | uniform (opts : List Int)
-  deriving Repr
+  deriving DecidableEq, Repr
 
 def intRange : Int → Nat → List Int
   | _, 0 => []
@@ -212,7 +216,17 @@ inductive Stmt where
   | draw (s : DrawSpec)
   | choose (items : List Item)
   | shuffle (items : List Item)
-  deriving Repr
+  /-- `do choose d` where `d` is the dict held in local variable number `k` -/
+  | chooseVar (k : Nat)
+  /-- `do shuffle d` where `d` is the dict held in local variable number `k` -/
+  | shuffleVar (k : Nat)
+  deriving DecidableEq, Repr
+
+/-- the dicts held in the local variables of the body (`d = {Sub(1): 2, …}`) -/
+abbrev Store := List (List Item)
+
+/-- what `d` holds after a completed `do shuffle d` -/
+def afterShuffle (c : Config) (st : Store) (k : Nat) : Store := if c.copyOperand then st else st.set k []
 
 /-- continue with `k` after a sub-computation that produced outcome `o` -/
 def andThen (o : Outcome) (k : Nat → Dist Outcome) : Dist Outcome :=
@@ -223,15 +237,26 @@ def drawStep (t : Nat) (recur : Int → Dist Outcome) : Pick Int → Dist Outcom
   | .picked z => Dist.map (Outcome.prepend [⟨t, 1, z⟩]) (recur z)
   | p => Dist.pure (failOutcome t p)
 
-def exec (c : Config) (env : Env) : List Stmt → Nat → List Int → Dist Outcome
-  | [], t, _ => Dist.pure ⟨[], t, .done⟩
-  | .wait n :: rest, t, vals => exec c env rest (t + n) vals
-  | .draw s :: rest, t, vals =>
-    Dist.bind (drawDist c vals s) (drawStep t fun z => exec c env rest (t + 1) (vals ++ [z]))
-  | .choose items :: rest, t, vals =>
-    Dist.bind (doChoose c env t items) fun o => andThen o fun t' => exec c env rest t' vals
-  | .shuffle items :: rest, t, vals =>
-    Dist.bind (doShuffle c env t items) fun o => andThen o fun t' => exec c env rest t' vals
+def exec (c : Config) (env : Env) : List Stmt → Nat → List Int → Store → Dist Outcome
+  | [], t, _, _ => Dist.pure ⟨[], t, .done⟩
+  | .wait n :: rest, t, vals, st => exec c env rest (t + n) vals st
+  | .draw s :: rest, t, vals, st =>
+    Dist.bind (drawDist c vals s) (drawStep t fun z => exec c env rest (t + 1) (vals ++ [z]) st)
+  | .choose items :: rest, t, vals, st =>
+    Dist.bind (doChoose c env t items) fun o => andThen o fun t' => exec c env rest t' vals st
+  | .shuffle items :: rest, t, vals, st =>
+    Dist.bind (doShuffle c env t items) fun o => andThen o fun t' => exec c env rest t' vals st
+  | .chooseVar k :: rest, t, vals, st =>
+    Dist.bind (doChoose c env t (st.getD k [])) fun o => andThen o fun t' => exec c env rest t' vals st
+  | .shuffleVar k :: rest, t, vals, st =>
+    Dist.bind (doShuffle c env t (st.getD k [])) fun o =>
+      andThen o fun t' => exec c env rest t' vals (afterShuffle c st k)
+
+/-- the statement with the variable replaced by the dict it holds -/
+def Stmt.resolve (st : Store) : Stmt → Stmt
+  | .chooseVar k => .choose (st.getD k [])
+  | .shuffleVar k => .shuffle (st.getD k [])
+  | s => s
 
 /-! ## the index computation of `random.choices(population, cum_weights=cum)`
 
